@@ -356,6 +356,11 @@ def _selfcheck_decreasing():
 _VIP = {}
 
 
+def mod_assign(repo, name):
+    v = repo.module(URL).assigns.get(name)
+    return v if v is not None else ast.Constant(value='')
+
+
 def _validated_in_parse(ctx, esc, ui, it):
     """An accessor re-applies a normaliser to a stored field; the exception cannot occur there when URLInfo.parse - the only
     writer of that field - has applied the same normaliser with the same (default) arguments to the stored value before
@@ -387,6 +392,20 @@ def _validated_in_parse(ctx, esc, ui, it):
                 isinstance(t, ast.Attribute) and isinstance(t.value, ast.Name) and t.value.id == obj and t.attr == fld for t in n.targets)]
             if stores and all(st.lineno < c.lineno for st in stores):
                 validated[(c.func.id, fld)] = True
+        elif isinstance(c.func, ast.Name) and len(c.args) == 1 and not c.keywords and isinstance(c.args[0], ast.Name):
+            # the normaliser applied to the raw local X, the field being stored as percent_decode(X): unquoting with the default
+            # codec (UTF-8, errors='replace') yields input characters and decoded scalars only, so it cannot make text
+            # unencodable that was encodable (premise about urllib.parse.unquote; its defaults are checked here)
+            if any(isinstance(a, (ast.Try, ast.If, ast.For, ast.While)) for a in U.ancestors(c, pm)):
+                continue
+            x = c.args[0].id
+            for n in walk_no_nested(parse.node):
+                if isinstance(n, ast.Assign) and len(n.targets) == 1 and isinstance(n.targets[0], ast.Attribute) \
+                        and isinstance(n.targets[0].value, ast.Name) and n.targets[0].value.id == obj \
+                        and isinstance(n.value, ast.Call) and norm_text(n.value.func) in ('percent_decode', 'urllib.parse.unquote') \
+                        and len(n.value.args) == 1 and not n.value.keywords and isinstance(n.value.args[0], ast.Name) and n.value.args[0].id == x \
+                        and norm_text(mod_assign(repo, 'percent_decode')) in ('urllib.parse.unquote', ''):
+                    validated[(c.func.id, n.targets[0].attr)] = True
     if not validated:
         return None
     # the field is written by parse only
